@@ -145,7 +145,9 @@ type RuntimeObjectListResult = Result<(RuntimeObjectList, Option<ArrayElement>),
 
 /// Nesting allowed in a story document: the same limit the default (serde) loader applies,
 /// so that a deeply nested document is an error under both loaders instead of a stack overflow here.
-const MAX_NESTING: usize = 128;
+/// serde_json refuses a document once 128 arrays/objects are open, counting the outer object;
+/// `depth` here starts at the root array, one level further in, so 126 is the last depth both accept.
+const MAX_NESTING: usize = 126;
 
 fn jtoken_to_runtime_object(
     tok: &mut JsonTokenizer,
